@@ -396,6 +396,35 @@ func runC03(c *kit.Ctx) {
 		}
 	}
 
+	// ---------- F: the source of a RETIRED stream ends. A stream that was replaced while it had consumers stays open
+	// (retired); when its own publisher / pull connection then goes away (Unregist), its consumers must be released
+	for rep := 0; rep < reps; rep++ {
+		for _, pt := range ptypes {
+			if !mine() {
+				continue
+			}
+			scen := fmt.Sprintf("F-retired-stream-source-ends/%s", pt)
+			c.Pre(scen)
+			s := c03NewStream()
+			media.Regist(s)
+			r := &kit.RecConsumer{Name: scen}
+			s.StartConsume(r, pt, "x")
+			ns := media.NewStream(s.Path(), kit.SDPH264AAC)
+			media.Regist(ns) // s has a consumer: retired, not closed
+			detail := map[string]interface{}{"rep": rep}
+			if r.NClosed() != 0 {
+				c.Violation("C03:consumer-closed-without-stop-or-stream-end:F-retired", detail)
+			}
+			media.Unregist(s) // its publisher disconnects
+			c.Eval(1)
+			c.Distinct(scen)
+			c.SetAdd("interleavings_seen", scen)
+			c03Settle(c, l, s, r, scen, detail)
+			media.Unregist(ns)
+			s.Close()
+		}
+	}
+
 	// ---------- D: converter Close × converter goroutine (lost wake-up in the three converters)
 	type conv struct {
 		name, fn string
